@@ -458,6 +458,22 @@ struct Env {
         in.op = rng.chance(1, 2) ? R_UNLINK : R_PUBLISH;
       }
     }
+    // shaped: "hand protection over between guards" — acquire once, then copy to another guard and reset the source,
+    // back and forth, while other threads unlink and scan (a scan must never miss an object whose protection moves)
+    if (rng.chance(1, 6) && len >= 4) {
+      prog.clear();
+      uint8_t c = (uint8_t)rng.below((uint32_t)ncells), a = 0, b = 1;
+      prog.push_back(RInstr{R_ACQUIRE, c, a, 0});
+      int rounds = rng.range(1, 3);
+      for (int i = 0; i < rounds; ++i) {
+        prog.push_back(RInstr{R_COPY, c, a, b});
+        prog.push_back(RInstr{R_RESET, c, a, 0});
+        prog.push_back(RInstr{R_DEREF, c, b, 0});
+        std::swap(a, b);
+      }
+      prog.push_back(RInstr{R_DEREF, c, a, 0});
+      return prog;
+    }
     // shaped: "hold a guard for long" — acquire early, dereference at the very end
     if (rng.chance(1, 3) && prog.size() >= 3) {
       prog[0].op = R_ACQUIRE;
@@ -577,6 +593,11 @@ struct Env {
     counters().add("destroyed_while_other_thread_guards", L.destroyed_while_other_guarded);
     counters().add("destroyed_by_other_after_retirer_exit", L.destroyed_by_other_after_exit);
     counters().add("guards_registered", L.guards_registered);
+    // the lifetime registry is the more specific witness; a race / heap report of the runtime usually accompanies it
+    if (!L.err_kind.empty() && L.err_prop == "C01") {
+      out.fail(L.err_prop.c_str(), L.err_kind.c_str(), L.err_msg);
+      return;
+    }
     if (xrt::has_violation())
       return;
     if (!L.err_kind.empty()) {
